@@ -65,13 +65,12 @@ theorem handleNormal_benign (cfg : Cfg) (o : Option Nat) (cl : Client) (m : Msg)
     simp [hrw, hfree, hn, hop, hnp]
   case setScale p s =>
     have hs0 : s ≠ 0 := by omega
-    simp only [handleNormal, hs0, if_false, expected1, nextScale, setScale]
-    split <;> simp [hrw, hfree, hn, hop, hnp]
+    simp [handleNormal, hs0, expected1, nextScale, setScale, hrw, hfree, hn, hop, hnp]
   case pointer mk x y =>
     have h1 : ¬ (o.isSome = true ∧ o ≠ some cl.id) := by
       rcases hfree with h | h <;> simp [h]
     simp only [handleNormal, h1, if_false, hrw, hnd, hnp, expected1, nextScale, sx, sy]
-    by_cases hm : mk = 0 <;> simp [hm, hn, hop, hrw, hnp]
+    by_cases hm : mk = 0 <;> simp [hm, hn, hop]
 
 /-- **one message**: a benign message of a permitted client is consumed exactly, produces exactly
 its expected callbacks, and leaves the client permitted -/
